@@ -186,15 +186,5 @@ def run(case, bct, REC):
                     for r in rngs():
                         modq.execute(REC, bct, 'community_louvain', W, {'gamma': g, 'B': B}, r)
                     modq.execute(REC, bct, 'community_louvain', W, {'gamma': g, 'B': B}, rngs(1)[0], start=sts[4])
-    if n <= 12 and W.dtype == float:
-        mk = lambda: {'seed': rngmod.make_rng({'kind': 'spy', 'seed': 5})}  # noqa
-        if kind == 'und':
-            for fn in ('modularity_louvain_und', 'modularity_finetune_und', 'community_louvain'):
-                layout_variants_agree(REC, PROP, fn, getattr(bct, fn), W, make_kwargs=mk)
-        elif kind == 'dir':
-            for fn in ('modularity_finetune_dir', 'community_louvain'):
-                layout_variants_agree(REC, PROP, fn, getattr(bct, fn), W, make_kwargs=mk)
-        else:
-            for fn in ('modularity_louvain_und_sign', 'modularity_finetune_und_sign', 'modularity_probtune_und_sign'):
-                layout_variants_agree(REC, PROP, fn, getattr(bct, fn), W, make_kwargs=mk)
+    # (no layout differential here: a 1-ulp difference in a strided sum may legitimately flip an argmax tie of the optimiser)
     REC.sample(PROP, {'W': W if n <= 8 else case['g'], 'kind': kind}, cap=4)
